@@ -72,3 +72,122 @@ theorem old_replacement_leaks :
     let (st2, s2) := replaceSeparatorOld st1 s1 [7]
     let (st3, s3) := prepareSlot loc st2 s2
     s3.ovf = none ∧ st3.chains.length = 1 := by decide
+
+/-! ### ownership across internal rebalancing -/
+
+theorem rotRight_slots (t t' : Trio) (h : rotRight t = some t') : t'.slots = t.slots := by
+  obtain ⟨l, p, r⟩ := t
+  unfold rotRight at h
+  simp only at h
+  cases hl : l.getLast? with
+  | none => rw [hl] at h; cases h
+  | some x =>
+    rw [hl] at h
+    cases h
+    simp only [Trio.slots]
+    have : l = l.dropLast ++ [x] := by
+      have hne : l ≠ [] := by intro h0; subst h0; simp at hl
+      rw [List.getLast?_eq_some_getLast hne] at hl
+      cases hl
+      exact (List.dropLast_concat_getLast hne).symm
+    conv => rhs; rw [this]
+    simp
+
+theorem rotLeft_slots (t t' : Trio) (h : rotLeft t = some t') : t'.slots = t.slots := by
+  obtain ⟨l, p, r⟩ := t
+  unfold rotLeft at h
+  simp only at h
+  cases r with
+  | nil => cases h
+  | cons x rs => cases h; simp [Trio.slots]
+
+theorem get_free_ne (st : ChainStore) (c d : Nat) (h : d ≠ c) : (st.free c).get d = st.get d := by
+  simp only [ChainStore.free, ChainStore.get]
+  congr 1
+  induction st.chains with
+  | nil => rfl
+  | cons p ps ih =>
+    simp only [List.filter_cons, List.find?_cons]
+    by_cases hp : p.1 = c
+    · have hd : p.1 ≠ d := by omega
+      have h1 : (p.1 != c) = false := by simp [hp]
+      have h2 : (p.1 == d) = false := by simp [hd]
+      rw [h1, h2]
+      simpa using ih
+    · have h1 : (p.1 != c) = true := by simp [hp]
+      rw [h1]
+      simp only [if_true, List.find?_cons]
+      cases (p.1 == d)
+      · simpa using ih
+      · rfl
+
+/-- **leaf merge**: dropping the separator and freeing its chain keeps every other slot intact, leaves
+no chain with two owners and leaks nothing -/
+theorem dropSeparator_owned (loc : Nat) (st : ChainStore) (before after : List Slot) (sep : Slot)
+    (h : Owned loc st (before ++ sep :: after)) : Owned loc (dropSeparator st sep) (before ++ after) := by
+  obtain ⟨hc, hn, hl⟩ := h
+  have hmem : ∀ s ∈ before ++ after, s ∈ before ++ sep :: after := by
+    intro s hs
+    rcases List.mem_append.mp hs with h1 | h1
+    · exact List.mem_append_left _ h1
+    · exact List.mem_append_right _ (List.mem_cons_of_mem _ h1)
+  cases ho : sep.ovf with
+  | none =>
+    have hfm : (before ++ sep :: after).filterMap (·.ovf) = (before ++ after).filterMap (·.ovf) := by
+      simp [List.filterMap_append, ho]
+    simp only [dropSeparator, ho]
+    exact ⟨fun s hs => hc s (hmem s hs), hfm ▸ hn, fun p hp => hfm ▸ hl p hp⟩
+  | some c =>
+    have hfm : (before ++ sep :: after).filterMap (·.ovf) =
+        before.filterMap (·.ovf) ++ c :: after.filterMap (·.ovf) := by
+      simp [List.filterMap_append, ho]
+    rw [hfm] at hn hl
+    have hn' := List.nodup_append.mp hn
+    have hcnot : c ∉ (before ++ after).filterMap (·.ovf) := by
+      intro hin
+      rw [List.filterMap_append] at hin
+      rcases List.mem_append.mp hin with h1 | h1
+      · exact hn'.2.2 c h1 c List.mem_cons_self rfl
+      · exact (List.nodup_cons.mp hn'.2.1).1 h1
+    simp only [dropSeparator, ho]
+    refine ⟨?_, ?_, ?_⟩
+    · intro s hs
+      have h1 := hc s (hmem s hs)
+      unfold slotConsistent at h1 ⊢
+      cases hso : s.ovf with
+      | none => trivial
+      | some d =>
+        rw [hso] at h1
+        have hdc : d ≠ c := by
+          intro hdc; subst hdc
+          exact hcnot (List.mem_filterMap.mpr ⟨s, hs, hso⟩)
+        simp only
+        exact ⟨h1.1, by rw [get_free_ne _ _ _ hdc]; exact h1.2⟩
+    · rw [List.filterMap_append]
+      refine List.nodup_append.mpr ⟨hn'.1, (List.nodup_cons.mp hn'.2.1).2, ?_⟩
+      intro a ha b hb
+      exact hn'.2.2 a ha b (List.mem_cons_of_mem _ hb)
+    · intro p hp
+      simp only [ChainStore.free] at hp
+      have hp' := List.mem_filter.mp hp
+      have hne : p.1 ≠ c := by simpa using hp'.2
+      have := hl p hp'.1
+      rw [List.filterMap_append]
+      rcases List.mem_append.mp this with h1 | h1
+      · exact List.mem_append_left _ h1
+      · rcases List.mem_cons.mp h1 with h2 | h2
+        · exact absurd h2 hne
+        · exact List.mem_append_right _ h2
+
+/-- witness for the seeded change: routing the rotation's parent update through `replace_separator`
+frees the chain that moved down with the old separator — the right child's first slot no longer
+decodes — and the chain that came up is dropped from the parent slot -/
+theorem rotRightBad_breaks :
+    let loc := 2
+    let st0 : ChainStore := {}
+    let (st1, a) := prepareSlot loc st0 { key := [1, 1, 1, 1], ovf := none }   -- left's last key
+    let (st2, p) := prepareSlot loc st1 { key := [5, 5, 5, 5], ovf := none }   -- the separator
+    let r := rotRightBad st2 ([a], p, [])
+    decodeSlot loc st2 p = some [5, 5, 5, 5] ∧
+      r.map (fun x => x.2.2.2.head?.bind (decodeSlot loc x.1)) = some none ∧
+      r.map (fun x => x.2.2.1.ovf) = some none ∧ r.map (fun x => x.1.chains.length) = some 1 := by decide
